@@ -434,14 +434,16 @@ a silent handler gets a SERVFAIL (2) which is normalised like any other response
 argument text is the syntactic fact `dnscrypt_src`, the behaviour is the wiring campaign's), and the
 UDP size of the *request* the library will truncate by is lowered (`SetUDPSize`, fact
 `dnscrypt_clamp_src`) exactly when the query has an OPT record and the network is UDP — after
-`normalize` (so the echo keeps the client's own size), before `WriteMsg`. -/
+`normalize` (so the echo keeps the client's own size), before `WriteMsg`; round 6: it is lowered in the
+copy `replaceOPT` puts into a cloned additional section of the request (`replaceOPT_tr` below), so a
+response that shares the record or the section with the request keeps the client's size. -/
 theorem dnscrypt_write_path (h : S_dnsserver_dnsCryptHandler) (rc : AbsPtr × AbsPtr) (ctx : AbsPtr)
     (nrw : Option S_dnsserver_NonWriterResponseWriter) (written : Bool) (m g : AbsPtr) (network : String)
-    (reqOpt : AbsPtr) (w : Option String) :
-    let r := dnscrypt_ServeDNS h rc ctx nrw written m network reqOpt w g
+    (reqOpt lowered : AbsPtr) (w : Option String) :
+    let r := dnscrypt_ServeDNS h rc ctx nrw written m network reqOpt lowered w g
     argsOf "normalize" r.2 = [[network, toString (9 : Int), "_", "_", "_"]] ∧
       names (after "normalize" r.2) =
-        (if reqOpt && decide (network = "udp") then ["IsEdns0", "SetUDPSize", "WriteMsg"]
+        (if reqOpt && decide (network = "udp") then ["IsEdns0", "replaceOPT", "SetUDPSize", "WriteMsg"]
          else ["IsEdns0", "WriteMsg"]) ∧
       "WriteMsg" ∉ names (before "normalize" r.2) ∧ "SetUDPSize" ∉ names (before "normalize" r.2) ∧
       r.1 = w ∧
